@@ -110,7 +110,7 @@ func (b *verifC11FailBody) Close() error { return nil }
 func verifC11Response(req *http.Request, o verifC11Out) *http.Response {
 	h := http.Header{}
 	if o.hdr != nil {
-		h[XKeepReplicasStored] = []string{*o.hdr}
+		h["X-Keep-Replicas-Stored"] = []string{*o.hdr}
 	}
 	var body io.ReadCloser = ioutil.NopCloser(bytes.NewReader(o.body))
 	if o.bodyErr {
